@@ -21,6 +21,12 @@ CatalogueGraphs == <<
    [name |-> "boxdiag",     edges |-> << <<1, 2>>, <<2, 3>>, <<3, 4>>, <<4, 1>>, <<1, 3>> >>],
    [name |-> "kite",        edges |-> << <<1, 2>>, <<2, 3>>, <<3, 1>>, <<3, 4>>, <<4, 1>> >>],
    [name |-> "mercedes",    edges |-> << <<1, 2>>, <<2, 3>>, <<3, 1>>, <<1, 4>>, <<2, 4>>, <<3, 4>> >>],
-   [name |-> "ladder2",     edges |-> << <<1, 2>>, <<2, 3>>, <<3, 4>>, <<4, 5>>, <<5, 6>>, <<6, 1>>, <<2, 5>> >>]
+   [name |-> "ladder2",     edges |-> << <<1, 2>>, <<2, 3>>, <<3, 4>>, <<4, 5>>, <<5, 6>>, <<6, 1>>, <<2, 5>> >>],
+   \* many loops that share edges only with their neighbours: L matrices with structural zeros (in the cycle basis of a
+   \* spanning tree and after the chain change of basis), fill-in in the Cholesky factor
+   [name |-> "bubblechain3", edges |-> << <<1, 2>>, <<1, 2>>, <<2, 3>>, <<2, 3>>, <<3, 4>>, <<3, 4>> >>],
+   [name |-> "bubblechain4", edges |-> << <<1, 2>>, <<1, 2>>, <<2, 3>>, <<2, 3>>, <<3, 4>>, <<3, 4>>, <<4, 5>>, <<4, 5>> >>],
+   [name |-> "ladder3",     edges |-> << <<1, 2>>, <<2, 3>>, <<3, 4>>, <<4, 5>>, <<5, 6>>, <<6, 1>>, <<2, 6>>, <<3, 5>> >>],
+   [name |-> "tristrip3",   edges |-> << <<1, 2>>, <<2, 3>>, <<3, 1>>, <<2, 4>>, <<4, 3>>, <<4, 5>>, <<5, 3>> >>]
 >>
 =============================================================================
